@@ -652,12 +652,116 @@ fn note_position(st: &mut CaseStats, cands: &[Cand], info: &PosInfo, strict_choi
 
 pub struct C07;
 
+/// C07 through the WithPositions adapter: next / set_mode / set_offset histories.
+fn check_c07_with_positions(case: &Case) -> CheckResult {
+    use scnr::{MatchExtIterator, PositionProvider};
+    let input = case.input();
+    for op in &case.ops {
+        match op {
+            Op::Next => {}
+            Op::SetMode { m } if *m < case.modes.len() => {}
+            Op::SetOffset { o } if *o > input.len() || input.is_char_boundary(*o) => {}
+            _ => return Ok(discard("discard_op")),
+        }
+    }
+    let mut st = CaseStats::default();
+    let scanner = match build_guarded(case, false) {
+        Err(mut f) => {
+            f.kind = "c07.build_panic".into();
+            return Err(f);
+        }
+        Ok(Err(_)) => {
+            st.count("build_failed");
+            st.inconclusive = true;
+            return Ok(st);
+        }
+        Ok(Ok(s)) => s,
+    };
+    let text = Text::new(input);
+    let n = text.len();
+    let r = guard(|| -> Result<usize, Failure> {
+        let mut it = scanner.find_iter(input).with_positions();
+        let mut prev_end = 0usize;
+        let mut ended = false;
+        let mut tokens = 0usize;
+        let mut base = 0usize;
+        let handle = |m: Option<scnr::MatchExt>, prev_end: &mut usize, ended: &mut bool, tokens: &mut usize, base: usize| -> Result<(), Failure> {
+            match m {
+                None => *ended = true,
+                Some(m) => {
+                    let (s, e) = (m.start(), m.end());
+                    if *ended {
+                        return Err(Failure::new("c07.none_not_sticky", "a token was returned after None").exp_obs("None", m));
+                    }
+                    if e <= s || e > input.len() || !input.is_char_boundary(s) || !input.is_char_boundary(e) || s < *prev_end {
+                        return Err(Failure::new("c07.span", "malformed span from the WithPositions adapter")
+                            .exp_obs(format!("previous end {}", prev_end), m));
+                    }
+                    if m.start_position().line == 0 || m.start_position().column == 0 || m.end_position().line == 0 || m.end_position().column == 0 {
+                        return Err(Failure::new("c07.span", "position with line or column 0").exp_obs("1-based", m));
+                    }
+                    *prev_end = e;
+                    *tokens += 1;
+                    if *tokens > n - base {
+                        return Err(Failure::new("c07.too_many_tokens", "more tokens than input characters since the last reset"));
+                    }
+                }
+            }
+            Ok(())
+        };
+        let mut total = 0;
+        for op in &case.ops {
+            match op {
+                Op::Next => {
+                    let m = it.next();
+                    handle(m, &mut prev_end, &mut ended, &mut tokens, base)?;
+                }
+                Op::SetMode { m } => it.set_mode(*m),
+                Op::SetOffset { o } => {
+                    it.set_offset(*o);
+                    let oo = (*o).min(input.len());
+                    prev_end = oo;
+                    ended = false;
+                    total += tokens;
+                    tokens = 0;
+                    base = text.char_index(oo).unwrap_or(0);
+                }
+                _ => {}
+            }
+        }
+        let mut calls = 0;
+        while !ended {
+            if calls > n + 4 {
+                return Err(Failure::new("c07.no_progress", "iterator did not end after #chars+4 calls of next()"));
+            }
+            let m = it.next();
+            handle(m, &mut prev_end, &mut ended, &mut tokens, base)?;
+            calls += 1;
+        }
+        for _ in 0..3 {
+            let m = it.next();
+            handle(m, &mut prev_end, &mut ended, &mut tokens, base)?;
+        }
+        Ok(total + tokens)
+    });
+    match r {
+        Err(p) => Err(Failure::panic("c07.panic", format!("scanning {:?} through with_positions() panicked", input.chars().take(60).collect::<String>()), p)),
+        Ok(Err(f)) => Err(f),
+        Ok(Ok(t)) => {
+            st.add("tokens", t as u64);
+            st.count("driver_with_positions");
+            st.nontrivial = input.len() != n && t > 0;
+            Ok(st)
+        }
+    }
+}
+
 impl Check for C07 {
     fn id(&self) -> &'static str {
         "C07"
     }
     fn rule(&self) -> &'static str {
-        "case = any valid configuration (1-4 modes with sorted transitions, lookaheads of both polarities, nullable patterns) x one input of arbitrary scalar values (alphabet, boundary code points of the 1/2/3/4-byte ranges, uniform scalars) x a history of next / peek_n / set_mode / set_offset / with_offset (any boundary, len, beyond) / peek_n+advance_to; oracle = invariant: every span non-empty, within the input, on character boundaries, starting at or after the previous end (after a reset: at or after the reset offset); at most one token per character since the last reset; None is sticky; no panic in build or scan; next() called at most #chars+4 times so a non-advancing iterator is caught; non-trivial = input with a >= 2-byte character and at least one token and one skipped character"
+        "case = any valid configuration (1-4 modes with sorted transitions, lookaheads of both polarities, nullable patterns) x one input of arbitrary scalar values (alphabet, boundary code points of the 1/2/3/4-byte ranges, uniform scalars) x an iterator (FindMatches, or the WithPositions adapter in a quarter of the cases) x a history of next / peek_n / set_mode / set_offset / with_offset (any boundary, len, beyond) / peek_n+advance_to; oracle = invariant: every span non-empty, within the input, on character boundaries, starting at or after the previous end (after a reset: at or after the reset offset); at most one token per character since the last reset; None is sticky; no panic in build or scan; next() called at most #chars+4 times so a non-advancing iterator is caught; non-trivial = input with a >= 2-byte character and at least one token and one skipped character"
     }
     fn cases(&self, thorough: bool) -> usize {
         if thorough {
@@ -763,6 +867,11 @@ impl Check for C07 {
             };
             case.ops.push(op);
         }
+        if d.chance(70) {
+            // the adapter with positions is an iterator too (no peek / advance there)
+            case.extra = serde_json::json!({"driver": "with_positions"});
+            case.ops.retain(|o| matches!(o, Op::Next | Op::SetMode { .. } | Op::SetOffset { .. }));
+        }
         case
     }
     fn check(&self, case: &Case) -> CheckResult {
@@ -771,6 +880,9 @@ impl Check for C07 {
         }
         if case.inputs.len() != 1 {
             return Ok(discard("discard_shape"));
+        }
+        if case.extra["driver"].as_str() == Some("with_positions") {
+            return check_c07_with_positions(case);
         }
         for op in &case.ops {
             match op {
